@@ -29,10 +29,35 @@ const vC10Dest = cciptypes.ChainSelector(900)
 
 type vC10Gas struct{}
 
-func (vC10Gas) CalculateMerkleTreeGas(n int) uint64                   { return uint64(1000 * n) }
+func (vC10Gas) CalculateMerkleTreeGas(n int) uint64                 { return uint64(1000 * n) }
 func (vC10Gas) CalculateMessageMaxGas(msg cciptypes.Message) uint64 { return 50000 }
 
 func vC10Plugin(n, f int, fChain map[cciptypes.ChainSelector]int, me int) *Plugin {
+	p, _ := vC10PluginHC(n, f, fChain, me)
+	return p
+}
+
+// a veteran: one long-lived plugin per DON size that is evaluated on EVERY case of the run next to the fresh instances;
+// its home chain is re-pointed to the case's configuration, everything else the instance may have kept stays
+type vC10Vet struct {
+	p  *Plugin
+	hc *vHomeChain
+}
+
+func vC10Repoint(hc *vHomeChain, n int, fChain map[cciptypes.ChainSelector]int) {
+	var peers []libocrtypes.PeerID
+	for i := 0; i < n; i++ {
+		peers = append(peers, vPeer(i))
+	}
+	for ch := range hc.Configs {
+		delete(hc.Configs, ch)
+	}
+	for ch, fc := range fChain {
+		hc.SetChain(ch, fc, peers)
+	}
+}
+
+func vC10PluginHC(n, f int, fChain map[cciptypes.ChainSelector]int, me int) (*Plugin, *vHomeChain) {
 	hc := vNewHomeChain()
 	m := map[commontypes.OracleID]libocrtypes.PeerID{}
 	var peers []libocrtypes.PeerID
@@ -55,7 +80,7 @@ func vC10Plugin(n, f int, fChain map[cciptypes.ChainSelector]int, me int) *Plugi
 		oracleIDToP2pID:  m,
 		estimateProvider: vC10Gas{},
 		lggr:             mocks.NullLogger,
-	}
+	}, hc
 }
 
 func vC10Msg(src cciptypes.ChainSelector, seq uint64, tag byte, sender byte, nonce uint64) cciptypes.Message {
@@ -91,6 +116,7 @@ func TestVerif_C10_exec(t *testing.T) {
 	base := time.Date(2024, 11, 5, 12, 0, 0, 0, time.UTC)
 	classes := []string{"plain", "plain", "plain", "f17a-executed-disagree", "f17b-two-msgs-one-seq", "f17c-two-nonces", "f25-utc-spelling", "equal-timestamps",
 		"conflict-root", "conflict-end", "conflict-three"}
+	vets := map[int][2]*vC10Vet{}
 	for i := 0; i < n; i++ {
 		cls := classes[i%len(classes)]
 		N := vPick(r, []int{4, 7})
@@ -249,6 +275,20 @@ func TestVerif_C10_exec(t *testing.T) {
 		for k := 0; k < reps; k++ {
 			time.Local = zones[k%len(zones)]
 			p := vC10Plugin(N, F, fChain, k%N)
+			var repP *Plugin
+			if k == reps-1 {
+				// the last evaluation runs on the veterans of this DON size (own ids 0 and 1)
+				v, ok := vets[N]
+				if !ok {
+					p0, h0 := vC10PluginHC(N, F, fChain, 0)
+					p1, h1 := vC10PluginHC(N, F, fChain, 1)
+					v = [2]*vC10Vet{{p0, h0}, {p1, h1}}
+					vets[N] = v
+				}
+				vC10Repoint(v[0].hc, N, fChain)
+				vC10Repoint(v[1].hc, N, fChain)
+				p, repP = v[0].p, v[1].p
+			}
 			out, err := func() (o ocr3types.Outcome, e error) {
 				defer func() {
 					if x := recover(); x != nil {
@@ -268,7 +308,10 @@ func TestVerif_C10_exec(t *testing.T) {
 					first = string(out)
 				}
 				if out != nil {
-					reps2, err2 := vC10Plugin(N, F, fChain, (k+1)%N).Reports(ctx, 5, out)
+					if repP == nil {
+						repP = vC10Plugin(N, F, fChain, (k+1)%N)
+					}
+					reps2, err2 := repP.Reports(ctx, 5, out)
 					if err2 != nil {
 						key += "/RERR"
 					} else {
